@@ -17,12 +17,15 @@ THEOREMS = [
     "c14_translated", "c14_poll_interval_documented", "c14_deadline", "c14_timeout_at_deadline", "c14_cancel_latency", "c14_cancelled_only_if_fired",
     "c14_one_cancel_notification", "c14_cancel_before_send_writes_no_request", "c14_progress_exact",
     "c14_consumed_is_before_completion", "c14_progress_token_filter", "c14_callback_failure_irrelevant",
+    "c14_shared_token", "c14_shared_token_starts",
 ]
 RULE = (
     "schedules: placements of {cancel, matching response, deadline} on the tick grid (1/1024 s) at poll boundaries +-1 tick, "
     "x background traffic {none, bursts, flood every 10 ticks} x progress streams {own/foreign/absent token, missing fields, "
     "callback raising at positions 0..4} x both tie orders; real send_message under the virtual-time loop vs Await.run; "
-    "non-trivial = distinct case with a cancellation, a progress event or traffic"
+    "non-trivial = distinct case with a cancellation, a progress event or traffic; shared-token: 2-3 requests given ONE "
+    "CancellationToken, sequentially (idle gaps 0..P) or concurrently on separate stream pairs, token firing never / before / "
+    "at poll boundaries +-1 / mid-wait, vs Await.runSeq"
 )
 TRUSTED = ["anyio fail_after / cancel scopes / memory streams and asyncio scheduling (sampled under the virtual-time loop)"]
 ASSUMPTIONS = ["one polling interval = the default sub_timeout (0.5 s = 512 ticks), regenerated into Gen/Timing.lean"]
@@ -200,8 +203,113 @@ class Schedules(Suite):
         return G.shrink_candidates(case)
 
 
+class SharedToken(Suite):
+    """2-3 requests given the SAME CancellationToken: one after the other (a retry after a
+    cancelled call, a group of calls) or concurrently on separate stream pairs."""
+    name = "shared-token"
+    parallel = True
+
+    def cases(self, ctx, budget):
+        out = []
+        k = 0
+        fires = [None, 0, 1, 40, P - 1, P, P + 1, 2 * P, 2 * P + 50, 3 * P + 7]
+        resp = lambda a, k: [a, {"k": "resp", "id": "$ID", "p": {"r": k}}]
+        histories = [[], [resp(30, 1)], [resp(P + 10, 2)], [[10, G.sym_event("N")], [20, G.sym_event("O", k=3)]]]
+        for mode in ("seq", "par"):
+            for tie in ("events", "timers", "io"):
+                for fire in fires:
+                    for n in (2, 3):
+                        for hi in range(len(histories)):
+                            k += 1
+                            if budget == "quick" and k % 2 and fire not in (None, 0):
+                                continue
+                            reqs = []
+                            for i in range(n):
+                                h = histories[(hi + i) % len(histories)]
+                                reqs.append(G.place({"id": [{"s": f"req-{i}"}, None, {"i": i + 1}][(k + i) % 3], "method": "tools/call",
+                                                     "params": {"name": "x"}, "D": [2 * P, P + 100, 3 * P][(k + i) % 3],
+                                                     "progress": False, "ev": [list(e) for e in h]}))
+                            out.append({"mode": mode, "tie": tie, "fire": fire, "gaps": [[0, 0], [5, 0], [P, 1]][k % 3][: n - 1] + [0], "reqs": reqs})
+        rng = ctx.sub_rng("c14-shared", budget)
+        for i in range(600 if budget == "quick" else 20000):
+            n = rng.choice([2, 2, 3])
+            reqs = []
+            for j in range(n):
+                c = G.seeded(rng, ["R", "E", "N", "O", "G", "F", "Q"], max_len=5, progress_p=0.3)
+                for key in ("cancelAt", "pre", "hasToken", "cbRaises", "tie"):
+                    c.pop(key, None)
+                reqs.append(c)
+            out.append({"mode": rng.choice(["seq", "par"]), "tie": rng.choice(["events", "timers", "io"]),
+                        "fire": rng.choice([None, 0, rng.randint(1, 4 * P), rng.choice([P, 2 * P]) + rng.choice([-1, 0, 1])]),
+                        "gaps": [rng.choice([0, 1, 7, P]) for _ in range(n)], "reqs": reqs})
+        return out
+
+    def impl_batch(self, cases):
+        return [H.run_seq(c) for c in cases]
+
+    def model_line(self, case, o=None):
+        if o is None or any(x.get("harness_errors") for x in o):
+            return None
+        return H.seq_model_line(case, o)
+
+    def model_obs(self, out, case):
+        return [dict(H.model_shape(x), start=x.get("start")) for x in out]
+
+    def compare(self, case, o, m):
+        mine = [dict(H.impl_shape(r, x), start=x["start"]) for r, x in zip(case["reqs"], o)]
+        return None if canon(mine) == canon(m) else "differs"
+
+    def kind(self, case, o):
+        return f"{case['mode']}/{len(case['reqs'])}/fire={'none' if case['fire'] is None else 'pre' if case['fire'] == 0 else 'mid'}/" + \
+            "+".join(x["outcome"] for x in o)
+
+    def nontrivial(self, case, o):
+        return True
+
+    def oracle(self, case, o):
+        if any(x.get("harness_errors") for x in o):
+            return None
+        fire = case.get("fire")
+        for i, (r, x) in enumerate(zip(case["reqs"], o)):
+            if x["outcome"] == "exception":
+                return ("unexpected-exception", f"request {i}: {x.get('exc')}: {x.get('text')}", None)
+            cancels = [w for w in x["writes"] if isinstance(w, dict) and w.get("method") == "notifications/cancelled"]
+            reqs = [w for w in x["writes"] if isinstance(w, dict) and "id" in w and w.get("method")]
+            want = 1 if x["outcome"] == "cancelled" else 0
+            if len(cancels) != want:
+                return ("shared-token/cancel-notification-count",
+                        f"request {i} of {len(o)} sharing one token ended {x['outcome']} and wrote {len(cancels)} cancelled notifications", {"count": want})
+            sent = x.get("sent_id")
+            if cancels and sent is not None and (cancels[0].get("params") or {}).get("requestId") != sent:
+                return ("shared-token/cancel-notification-id", f"request {i}: cancelled notification names {cancels[0].get('params')}, request id {sent!r}", None)
+            if x["t"] > r["D"]:
+                return ("shared-token/deadline-exceeded", f"request {i} completed {x['t']} ticks after its start, deadline {r['D']}", None)
+            if fire is not None and fire <= x["start"]:
+                if x["outcome"] != "cancelled" or reqs:
+                    return ("shared-token/sent-after-cancel", f"request {i} started at {x['start']} after the token fired at {fire}: outcome {x['outcome']}, requests written {len(reqs)}", None)
+            if fire is not None and x["start"] + x["t"] > max(fire, x["start"]) + P:
+                return ("shared-token/cancel-latency", f"request {i}: token fired at {fire}, call ended at {x['start'] + x['t']}", None)
+            if x["outcome"] == "cancelled" and (fire is None or fire > x["start"] + x["t"]):
+                return ("shared-token/cancelled-without-token", f"request {i} cancelled at {x['start'] + x['t']}, token fire {fire}", None)
+        return None
+
+    def shrink_candidates(self, case):
+        if len(case["reqs"]) > 1:
+            for i in range(len(case["reqs"])):
+                c = dict(case)
+                c["reqs"] = case["reqs"][:i] + case["reqs"][i + 1:]
+                c["gaps"] = (case.get("gaps") or [])[: len(c["reqs"])]
+                yield c
+        for i, r in enumerate(case["reqs"]):
+            for j in range(len(r["ev"])):
+                c = dict(case)
+                c["reqs"] = [dict(x) for x in case["reqs"]]
+                c["reqs"][i]["ev"] = r["ev"][:j] + r["ev"][j + 1:]
+                yield c
+
+
 G_ALL = ["R", "R0", "Rx", "E", "E0", "Q", "O", "T", "N", "G", "Gp", "F", "B", "Oe"]
 
 
 def suites():
-    return [Schedules()]
+    return [Schedules(), SharedToken()]
